@@ -343,6 +343,12 @@ def spelling_pairs(rep):
             except M.MetaRaise as e:
                 got = f'raises {e}'
             rep.count('operator forms compared with their documented meaning')
+            # the documented meaning fixes the class and the attributes it names; attributes the class
+            # may carry besides (caches, bookkeeping) are compared between the two spellings only
+            want_abs = absolute[label]
+            if isinstance(got, tuple) and got and got[0] == want_abs[0]:
+                named = {k for k, _ in want_abs[1:]}
+                got = (got[0],) + tuple(kv for kv in got[1:] if kv[0] in named)
             rep.oblige(got == absolute[label])
             if got != absolute[label]:
                 rep.add(Finding('MAP-spellings', 'sourcer/translator.py:_create_parsing_expression',
